@@ -45,6 +45,13 @@
 //!    request was not sent and none of those that were. With an UNRECOVERABLE fault (closed / missing link -
 //!    the engine is about to shut down) only the "nothing wrong is requested" rules are kept (no
 //!    completeness, no follow-up).
+//!  * (second hardening round) client order ids shared between instruments; a second world with THREE exchanges
+//!    (all exchange subsets, plain / trading enabled / System handle); every first
+//!    command also issued through the user-facing `System::cancel_orders / close_positions` handle; long inputs:
+//!    one instrument tracking up to 1100 (4200) orders, worlds of 1..=64 (200) instruments; close-positions answered
+//!    by the library's own `DefaultStrategy`; every first command also while all market / account streams report
+//!    `Reconnecting`, and with a risk manager that refuses everything; filters built through the public constructors
+//!    `InstrumentFilter::exchanges(..)` etc.
 
 use super::c03::{fresh_state, mk_engine};
 use super::common::*;
@@ -52,14 +59,16 @@ use crate::core::{Ctx, Distinct, Outcome, Samples, hash_of};
 use barter::{
     EngineEvent,
     engine::{
-        Processor,
+        Engine, Processor,
         command::Command,
+        execution_tx::MultiExchangeTxMap,
         state::{
             instrument::{data::InstrumentDataState, filter::InstrumentFilter},
             trading::TradingState,
         },
     },
     execution::{AccountStreamEvent, request::ExecutionRequest},
+    strategy::DefaultStrategy,
 };
 use barter_data::{
     event::{DataKind, MarketEvent},
@@ -155,58 +164,136 @@ impl Link {
         }
     }
 }
-const HEALTHY: [Link; 2] = [Link::Healthy, Link::Healthy];
+/// one slot per exchange of the largest world (three); worlds with two exchanges ignore the third slot
+const HEALTHY: [Link; 3] = [Link::Healthy, Link::Healthy, Link::Healthy];
 /// link states with recoverable faults only: completeness on the healthy links and follow-ups are judged
-const RECOVERABLE: [[Link; 2]; 3] = [[Link::Unhealthy, Link::Healthy], [Link::Healthy, Link::Unhealthy], [Link::Unhealthy, Link::Unhealthy]];
+const RECOVERABLE: [[Link; 3]; 3] = [[Link::Unhealthy, Link::Healthy, Link::Healthy], [Link::Healthy, Link::Unhealthy, Link::Healthy], [Link::Unhealthy, Link::Unhealthy, Link::Healthy]];
 /// link states with an unrecoverable fault (also: an exchange WITHOUT link placed before a linked one)
-const UNRECOVERABLE: [[Link; 2]; 4] = [[Link::Missing, Link::Healthy], [Link::Healthy, Link::Missing], [Link::Closed, Link::Healthy], [Link::Healthy, Link::Closed]];
+const UNRECOVERABLE: [[Link; 3]; 4] = [[Link::Missing, Link::Healthy, Link::Healthy], [Link::Healthy, Link::Missing, Link::Healthy], [Link::Closed, Link::Healthy, Link::Healthy], [Link::Healthy, Link::Closed, Link::Healthy]];
 
 /// environment of one command evaluation
 #[derive(Debug, Clone, Copy, PartialEq, Eq, Hash)]
 pub struct Env {
-    links: [Link; 2],
+    links: [Link; 3],
     trading_enabled: bool,
     /// this command follows a cancel command some of whose requests could not be sent
     after_failed_send: bool,
+    /// the command is issued through the user-facing handle `System::cancel_orders / close_positions`
+    /// (barter/src/system/mod.rs) and whatever arrives on the engine feed is processed
+    via_system: bool,
+    /// the engine runs the library's own `DefaultStrategy` (barter/src/strategy/mod.rs) - "the default
+    /// strategy" of the statement - instead of the scripted strategy that calls
+    /// `close_open_positions_with_market_orders` itself. Its client order ids are random: they are never
+    /// compared, and these evaluations do not enter the distinct-outcome count.
+    default_strategy: bool,
+    /// connectivity is part of "any engine state": just before the command the market stream AND the account
+    /// stream of every exchange report `Reconnecting` (the state-reaching events had made the streams of the
+    /// exchanges they touched healthy)
+    reconnecting: bool,
+    /// the configured risk manager refuses every request it is shown: user commands are not algorithmic
+    /// orders, the statement does not make them conditional on the risk manager
+    risk_refuses: bool,
 }
-const PLAIN: Env = Env { links: HEALTHY, trading_enabled: false, after_failed_send: false };
+const PLAIN: Env = Env { links: HEALTHY, trading_enabled: false, after_failed_send: false, via_system: false, default_strategy: false, reconnecting: false, risk_refuses: false };
 
 fn one_or_many<T>(mut v: Vec<T>, many: bool) -> OneOrMany<T> {
     if v.len() == 1 && !many { OneOrMany::One(v.pop().unwrap()) } else { OneOrMany::Many(v) }
 }
 
 pub struct W {
+    /// name of the world, part of every recorded case
+    name: String,
     instruments: IndexedInstruments,
     n_ins: usize,
     n_ex: usize,
     ex_of: Vec<usize>,
     und_of: Vec<(usize, usize)>,
+    /// the distinct underlyings, in order of first appearance
+    real_unds: Vec<(usize, usize)>,
     n_assets: usize,
 }
 
 impl W {
-    pub fn new() -> Self {
-        let instruments = IndexedInstruments::builder()
-            .add_instrument(spot(EXCHANGES[0], "a", "A", "btc", "usdt"))
-            .add_instrument(spot(EXCHANGES[0], "b", "B", "btc", "usdt"))
-            .add_instrument(spot(EXCHANGES[0], "c", "C", "btc", "usd"))
-            .add_instrument(spot(EXCHANGES[1], "d", "D", "btc", "usdt"))
-            .build();
+    fn of(name: &str, instruments: IndexedInstruments) -> Self {
         let ex_of: Vec<usize> = instruments.instruments().iter().map(|i| i.value.exchange.key.index()).collect();
         let und_of: Vec<(usize, usize)> = instruments
             .instruments()
             .iter()
             .map(|i| (i.value.underlying.base.index(), i.value.underlying.quote.index()))
             .collect();
-        assert_eq!(ex_of, vec![0, 0, 0, 1], "instrument layout");
-        assert_eq!(und_of[0], und_of[1]);
-        assert!(und_of[0] != und_of[2] && und_of[0].0 == und_of[2].0 && und_of[0] != und_of[3]);
-        Self { n_ins: 4, n_ex: 2, n_assets: instruments.assets().len(), instruments, ex_of, und_of }
+        let mut real_unds = Vec::new();
+        for u in &und_of {
+            if !real_unds.contains(u) {
+                real_unds.push(*u);
+            }
+        }
+        Self { name: name.into(), n_ins: ex_of.len(), n_ex: instruments.exchanges().len(), n_assets: instruments.assets().len(), instruments, ex_of, und_of, real_unds }
+    }
+
+    /// the main world: 4 instruments, 2 exchanges, 3 underlyings
+    pub fn new() -> Self {
+        let w = Self::of(
+            "main",
+            IndexedInstruments::builder()
+                .add_instrument(spot(EXCHANGES[0], "a", "A", "btc", "usdt"))
+                .add_instrument(spot(EXCHANGES[0], "b", "B", "btc", "usdt"))
+                .add_instrument(spot(EXCHANGES[0], "c", "C", "btc", "usd"))
+                .add_instrument(spot(EXCHANGES[1], "d", "D", "btc", "usdt"))
+                .build(),
+        );
+        assert_eq!(w.ex_of, vec![0, 0, 0, 1], "instrument layout");
+        assert_eq!(w.und_of[0], w.und_of[1]);
+        assert!(w.und_of[0] != w.und_of[2] && w.und_of[0].0 == w.und_of[2].0 && w.und_of[0] != w.und_of[3]);
+        assert_eq!(w.real_unds, vec![w.und_of[0], w.und_of[2], w.und_of[3]]);
+        w
+    }
+
+    /// THREE exchanges (exchange 0 lists instruments 0 and 1, exchange 1 instrument 2, exchange 2 instrument 3;
+    /// `IndexedInstruments` sorts instruments by exchange): an exchange filter naming exchanges 0 and 2 must
+    /// leave the exchange between them alone
+    pub fn three() -> Self {
+        let w = Self::of(
+            "three-exchanges",
+            IndexedInstruments::builder()
+                .add_instrument(spot(EXCHANGES[0], "a", "A", "btc", "usdt"))
+                .add_instrument(spot(EXCHANGES[1], "b", "B", "btc", "usdt"))
+                .add_instrument(spot(EXCHANGES[0], "c", "C", "eth", "usdt"))
+                .add_instrument(spot(EXCHANGES[2], "d", "D", "btc", "usdt"))
+                .build(),
+        );
+        assert_eq!(w.ex_of, vec![0, 0, 1, 2], "instrument layout");
+        assert_eq!(w.real_unds.len(), 4);
+        w
+    }
+
+    /// k instruments over two exchanges (named so that they alternate; the index sorts them by exchange), all
+    /// btc/usdt (the long-input layer)
+    pub fn wide(k: usize) -> Self {
+        let mut b = IndexedInstruments::builder();
+        for j in 0..k {
+            b = b.add_instrument(spot(EXCHANGES[j % 2], &format!("i{j}"), &format!("I{j}"), "btc", "usdt"));
+        }
+        let w = Self::of(&format!("wide-{k}"), b.build());
+        assert!(w.ex_of.iter().all(|e| *e < 2), "instrument layout");
+        w
+    }
+
+    fn by_name(name: &str) -> Self {
+        match name {
+            "three-exchanges" => Self::three(),
+            n if n.starts_with("wide-") => Self::wide(n[5..].parse().expect("replay: world")),
+            _ => Self::new(),
+        }
     }
 
     fn filter(&self, f: &FSpec) -> InstrumentFilter {
         match f {
             FSpec::None => InstrumentFilter::None,
+            // `many == false`: through the public constructors (`InstrumentFilter::exchanges(..)` etc., what a user
+            // writes), `many == true`: the variant written out with `OneOrMany::Many`
+            FSpec::Ex(v, false) => InstrumentFilter::exchanges(v.iter().map(|e| ExchangeIndex(*e))),
+            FSpec::Ins(v, false) => InstrumentFilter::instruments(v.iter().map(|i| InstrumentIndex(*i))),
+            FSpec::Und(v, false) => InstrumentFilter::underlyings(v.iter().map(|(b, q)| Underlying { base: AssetIndex(*b), quote: AssetIndex(*q) })),
             FSpec::Ex(v, m) => InstrumentFilter::Exchanges(one_or_many(v.iter().map(|e| ExchangeIndex(*e)).collect(), *m)),
             FSpec::Ins(v, m) => InstrumentFilter::Instruments(one_or_many(v.iter().map(|i| InstrumentIndex(*i)).collect(), *m)),
             FSpec::Und(v, m) => InstrumentFilter::Underlyings(one_or_many(
@@ -239,7 +326,7 @@ impl W {
         v.push(FSpec::Ex(vec![0], true));
         v.push(FSpec::Ex(vec![1], true));
         v.push(FSpec::Ex(vec![], true));
-        v.push(FSpec::Ex(vec![2], false)); // unknown exchange index
+        v.push(FSpec::Ex(vec![self.n_ex], false)); // unknown exchange index
         v.push(FSpec::Ex(vec![3, 1], false)); // unknown (== an instrument index) + real
         // instruments
         for s in subsets(self.n_ins) {
@@ -249,12 +336,17 @@ impl W {
         v.push(FSpec::Ins(vec![], true));
         v.push(FSpec::Ins(vec![7], false));
         v.push(FSpec::Ins(vec![3, 0], false));
-        // underlyings: the three real ones, all subsets
-        let real = [self.und_of[0], self.und_of[2], self.und_of[3]];
-        for s in subsets(3) {
+        // underlyings: the real ones, all subsets
+        let real = self.real_unds.clone();
+        for s in subsets(real.len()) {
             v.push(FSpec::Und(s.iter().map(|k| real[*k]).collect(), false));
         }
         v.push(FSpec::Und(vec![real[2]], true));
+        if self.n_ex > 2 {
+            // a third exchange: the missing subsets' duplicates / orders
+            v.push(FSpec::Ex(vec![2, 0], false));
+            v.push(FSpec::Ex(vec![2, 2, 0], false));
+        }
         v.push(FSpec::Und(vec![], true));
         // decoys: every ordered pair of asset indices that is no underlying
         for b in 0..self.n_assets {
@@ -293,6 +385,12 @@ struct RefIns {
     price: bool,
 }
 
+/// client order id of the order of kind `name` on instrument i: instruments 0 and 2 use the same ids, and
+/// so do 1 and 3 (client order ids are unique per instrument, not globally: an order is instrument + id)
+fn cid_of(i: usize, name: &str) -> String {
+    format!("{}{name}", i % 2)
+}
+
 fn ref_of(cfg: &[IC]) -> Vec<RefIns> {
     cfg.iter()
         .enumerate()
@@ -300,7 +398,7 @@ fn ref_of(cfg: &[IC]) -> Vec<RefIns> {
             let mut orders = BTreeMap::new();
             for (k, name) in KINDS.iter().enumerate() {
                 if c.orders & (1 << k) != 0 {
-                    let cid = format!("{i}{name}");
+                    let cid = cid_of(i, name);
                     let st = match k {
                         0 => RS::InFlight,
                         1 | 2 => RS::Open(format!("x-{cid}")),
@@ -329,10 +427,25 @@ fn key(w: &W, i: usize, cid: &str) -> OrderKey<ExchangeIndex, InstrumentIndex> {
 }
 const GTC: TimeInForce = TimeInForce::GoodUntilCancelled { post_only: false };
 
+/// side and time in force of the tracked order with this client order id (by the kind suffix of the id): the
+/// scope of a cancel command does not depend on the terms of an order
+fn terms_of(cid: &str) -> (Side, TimeInForce) {
+    if cid.ends_with("op") {
+        (Side::Sell, TimeInForce::GoodUntilCancelled { post_only: true })
+    } else if cid.ends_with("pf") {
+        (Side::Buy, TimeInForce::GoodUntilEndOfDay)
+    } else if cid.ends_with("cs") {
+        (Side::Sell, TimeInForce::GoodUntilEndOfDay)
+    } else {
+        (Side::Buy, GTC)
+    }
+}
+
 fn ev_open(w: &W, i: usize, cid: &str) -> Event {
+    let (side, time_in_force) = terms_of(cid);
     EngineEvent::Command(Command::SendOpenRequests(OneOrMany::One(OrderRequestOpen {
         key: key(w, i, cid),
-        state: RequestOpen { side: Side::Buy, price: Decimal::from(100), quantity: Decimal::from(2), kind: OrderKind::Limit, time_in_force: GTC },
+        state: RequestOpen { side, price: Decimal::from(100), quantity: Decimal::from(2), kind: OrderKind::Limit, time_in_force },
     })))
 }
 fn ev_snap_open(w: &W, i: usize, cid: &str, filled: u32) -> Event {
@@ -340,11 +453,11 @@ fn ev_snap_open(w: &W, i: usize, cid: &str, filled: u32) -> Event {
         exchange: ExchangeIndex(w.ex_of[i]),
         kind: AccountEventKind::OrderSnapshot(Snapshot(Order {
             key: key(w, i, cid),
-            side: Side::Buy,
+            side: terms_of(cid).0,
             price: Decimal::from(100),
             quantity: Decimal::from(2),
             kind: OrderKind::Limit,
-            time_in_force: GTC,
+            time_in_force: terms_of(cid).1,
             state: OrderState::active(Open { id: OrderId::new(format!("x-{cid}")), time_exchange: t_plus(1), filled_quantity: Decimal::from(filled) }),
         })),
     }))
@@ -389,7 +502,7 @@ fn script(w: &W, cfg: &[IC]) -> Vec<Event> {
             if c.orders & (1 << k) == 0 {
                 continue;
             }
-            let cid = format!("{i}{name}");
+            let cid = cid_of(i, name);
             evs.push(ev_open(w, i, &cid));
             match k {
                 1 => evs.push(ev_snap_open(w, i, &cid, 0)),
@@ -442,7 +555,7 @@ fn reach(w: &W, cfg: &[IC]) -> Result<EState, String> {
             if c.orders & (1 << k) == 0 {
                 continue;
             }
-            let cid = format!("{i}{name}");
+            let cid = cid_of(i, name);
             let got = st.orders.0.get(&ClientOrderId::new(cid.as_str())).map(|o| &o.state);
             let ok = match (k, got) {
                 (0, Some(ActiveOrderState::OpenInFlight(_))) => true,
@@ -468,6 +581,45 @@ fn reach(w: &W, cfg: &[IC]) -> Result<EState, String> {
     Ok(es)
 }
 
+/// The user-facing handle: a real `System` value (its tasks are placeholders that never run) whose feed
+/// receiver the harness holds. `System::cancel_orders / close_positions` put events on the feed; they are
+/// taken off again and handed to the engine under test.
+struct SysHandle {
+    _rt: tokio::runtime::Runtime,
+    system: barter::system::System<SEngine, Event>,
+    rx: barter_integration::channel::UnboundedRx<Event>,
+}
+impl SysHandle {
+    fn new() -> Self {
+        use barter::{execution::builder::ExecutionHandles, system::{System, SystemAuxillaryHandles}};
+        let rt = tokio::runtime::Builder::new_current_thread().build().expect("tokio runtime");
+        let ch = barter_integration::channel::Channel::<Event>::new();
+        let system = System {
+            engine: rt.spawn(std::future::pending()),
+            handles: SystemAuxillaryHandles {
+                execution: ExecutionHandles { mock_exchanges: vec![], managers: vec![], account_to_engines: vec![] },
+                market_to_engine: rt.spawn(std::future::pending()),
+                account_to_engine: rt.spawn(std::future::pending()),
+            },
+            feed_tx: ch.tx,
+            audit: None,
+        };
+        Self { _rt: rt, system, rx: ch.rx }
+    }
+    /// issue the command through the handle; everything that arrived on the feed, in order
+    fn issue(&mut self, close: bool, filter: InstrumentFilter) -> Vec<Event> {
+        if close { self.system.close_positions(filter) } else { self.system.cancel_orders(filter) }
+        let mut evs = Vec::new();
+        while let Ok(ev) = self.rx.rx.try_recv() {
+            evs.push(ev);
+        }
+        evs
+    }
+}
+thread_local! {
+    static SYS: std::cell::RefCell<SysHandle> = std::cell::RefCell::new(SysHandle::new());
+}
+
 /// Execute one command on the real engine (fresh links in the states `env.links` around the given state, trading
 /// enabled first if `env.trading_enabled`); evaluate the oracle against `refm` and advance `refm`. Returns the new engine state and a hash of the deliveries.
 fn eval(w: &W, es: &EState, refm: &mut [RefIns], f: &FSpec, cmd: Cmd, env: Env, out: &mut Vec<Viol>) -> Option<(EState, u64)> {
@@ -475,9 +627,9 @@ fn eval(w: &W, es: &EState, refm: &mut [RefIns], f: &FSpec, cmd: Cmd, env: Env, 
     let f = if cmd == Cmd::CancelAll { &all } else { f };
     let fk = f.kind();
     let out_start = out.len();
-    let modes: Vec<Option<TxMode>> = env.links.iter().map(|l| l.mode()).collect();
+    let modes: Vec<Option<TxMode>> = env.links[..w.n_ex.min(3)].iter().map(|l| l.mode()).collect();
     // can a request for instrument i be sent at all? / is completeness demanded for the sendable ones?
-    let sendable = |i: usize| env.links[w.ex_of[i]] == Link::Healthy;
+    let sendable = |i: usize| env.links[w.ex_of[i].min(2)] == Link::Healthy;
     let faulty = env.links != HEALTHY;
     let complete = env.links.iter().all(|l| matches!(l, Link::Healthy | Link::Unhealthy));
     // abstract context of the rule, part of the signature (empty in the plain case: signatures stay stable)
@@ -487,23 +639,64 @@ fn eval(w: &W, es: &EState, refm: &mut [RefIns], f: &FSpec, cmd: Cmd, env: Env, 
         "/other-link-faulty"
     } else if env.trading_enabled {
         "/trading-enabled"
+    } else if env.via_system {
+        "/via-system-handle"
+    } else if env.default_strategy {
+        "/default-strategy"
+    } else if env.reconnecting {
+        "/streams-reconnecting"
+    } else if env.risk_refuses {
+        "/risk-manager-refusing"
     } else {
         ""
     };
-    let (mut engine, txs) = mk_engine(&w.instruments, es.clone(), &modes, ScriptStrategy::default(), ScriptRisk::default());
+    let risk = ScriptRisk { refuse_opens: env.risk_refuses, refuse_cancels: env.risk_refuses };
+    let (mut engine, txs) = mk_engine(&w.instruments, es.clone(), &modes, ScriptStrategy::default(), risk);
+    // the same links and state around the library's DefaultStrategy
+    let mut engine_default = env.default_strategy.then(|| {
+        let map = MultiExchangeTxMap::from_iter(w.instruments.exchanges().iter().zip(&txs).map(|(e, t)| (e.value, t.clone())));
+        Engine::new(ScriptClock::default(), es.clone(), map, DefaultStrategy::<EState>::default(), ScriptRisk::default())
+    });
     if env.trading_enabled {
         let _ = engine.process(EngineEvent::TradingStateUpdate(TradingState::Enabled));
+    }
+    if env.reconnecting {
+        for ex in w.instruments.exchanges() {
+            let _ = engine.process(EngineEvent::Market(MarketStreamEvent::Reconnecting(ex.value)));
+            let _ = engine.process(EngineEvent::Account(AccountStreamEvent::Reconnecting(ex.value)));
+        }
     }
     let command = match cmd {
         Cmd::Close => Command::ClosePositions(w.filter(f)),
         _ => Command::CancelOrders(w.filter(f)),
     };
     let cname = if cmd == Cmd::Close { "close-positions" } else { "cancel-orders" };
-    if catch_unwind(AssertUnwindSafe(|| engine.process(EngineEvent::Command(command)))).is_err() {
+    let events: Vec<Event> = if env.via_system {
+        SYS.with(|s| s.borrow_mut().issue(cmd == Cmd::Close, w.filter(f)))
+    } else {
+        vec![EngineEvent::Command(command)]
+    };
+    if catch_unwind(AssertUnwindSafe(|| {
+        for ev in events {
+            match engine_default.as_mut() {
+                Some(e) => {
+                    let _ = e.process(ev);
+                }
+                None => {
+                    let _ = engine.process(ev);
+                }
+            }
+        }
+    }))
+    .is_err()
+    {
         out.push((format!("C19/{cname}/{fk}/panic{tag}"), format!("Engine::process panicked on {cmd:?} {f:?} {env:?}")));
         return None;
     }
-    let post = engine.state;
+    let post = match engine_default {
+        Some(e) => e.state,
+        None => engine.state,
+    };
     // deliveries: (link, request)
     let mut delivered: Vec<(usize, ExecutionRequest)> = Vec::new();
     for (l, t) in txs.iter().enumerate() {
@@ -515,7 +708,7 @@ fn eval(w: &W, es: &EState, refm: &mut [RefIns], f: &FSpec, cmd: Cmd, env: Env, 
     }
     let sig = |what: &str| format!("C19/{cname}/{what}{tag}");
     let sigf = |what: &str| format!("C19/{cname}/{fk}/{what}{tag}"); // scope rules name the filter kind
-    let h = hash_of(&format!("{delivered:?} {env:?}"));
+    let h = if env.default_strategy { 0 } else { hash_of(&format!("{delivered:?} {env:?}")) };
     let ctx_txt = if tag.is_empty() { String::new() } else { format!(" [{env:?}]") };
     // scope defects (request outside the filter / matching instrument skipped) are one family: one signature
     let mut scope: Vec<String> = Vec::new();
@@ -674,9 +867,9 @@ static UNREACHED: std::sync::Mutex<(u64, Option<String>)> = std::sync::Mutex::ne
 
 const SECOND: [Cmd; 3] = [Cmd::Cancel, Cmd::Close, Cmd::CancelAll];
 
-fn case_json(cfg: &[IC], f: &FSpec, seq: &[Cmd], env: Env) -> Value {
-    // `links` / `trading_enabled` describe the environment of the FIRST command; follow-ups run on healthy links
-    json!({"engine": "config-sweep", "cfg": cfg, "filter": f, "seq": seq, "links": env.links, "trading_enabled": env.trading_enabled})
+fn case_json(w: &W, cfg: &[IC], f: &FSpec, seq: &[Cmd], env: Env) -> Value {
+    // `links` / `trading_enabled` / `via_system` describe the environment of the FIRST command; follow-ups run on healthy links
+    json!({"engine": "config-sweep", "world": w.name, "cfg": cfg, "filter": f, "seq": seq, "links": env.links[..w.n_ex.min(3)], "trading_enabled": env.trading_enabled, "via_system": env.via_system, "default_strategy": env.default_strategy, "reconnecting": env.reconnecting, "risk_refuses": env.risk_refuses})
 }
 
 /// One first command under `env`, then (if it was clean) the follow-ups `seconds` on healthy links.
@@ -691,7 +884,7 @@ fn sweep_first(
     let res = eval(w, es0, &mut r1, f, first, env, &mut out);
     let first_clean = out.is_empty();
     for (sig, detail) in out.drain(..) {
-        ctx.violate(sig, detail, case_json(cfg, f, &[first], env));
+        ctx.violate(sig, detail, case_json(w, cfg, f, &[first], env));
     }
     let Some((es1, h1)) = res else { return (n, false) };
     // after a flagged command reference and engine may disagree: its follow-ups would only cascade
@@ -699,25 +892,30 @@ fn sweep_first(
         return (n, false);
     }
     let mut clean = true;
-    distinct.insert(h1);
-    let env2 = Env { links: HEALTHY, trading_enabled: false, after_failed_send: env.links != HEALTHY };
+    if !env.default_strategy {
+        distinct.insert(h1);
+    }
+    let env2 = Env { links: HEALTHY, trading_enabled: false, after_failed_send: env.links != HEALTHY, via_system: false, default_strategy: false, reconnecting: false, risk_refuses: false };
     for second in seconds {
         let mut r2 = r1.clone();
         let res2 = eval(w, &es1, &mut r2, f, *second, env2, &mut out);
         n += 1;
         for (sig, detail) in out.drain(..) {
             clean = false;
-            ctx.violate(sig, detail, case_json(cfg, f, &[first, *second], env));
+            ctx.violate(sig, detail, case_json(w, cfg, f, &[first, *second], env));
         }
         if let Some((_, h2)) = res2 {
-            distinct.insert(h1 ^ h2.rotate_left(17));
+            if !env.default_strategy {
+                distinct.insert(h1 ^ h2.rotate_left(17));
+            }
         }
     }
     (n, clean)
 }
 
 /// all command sequences for one configuration; returns number of command evaluations
-fn sweep_config(ctx: &Ctx, w: &W, filters: &[FSpec], cfg: &[IC], distinct: &mut std::collections::HashSet<u64>, samples: &Samples) -> u64 {
+/// `faults`: also the seven link-fault patterns (main world only)
+fn sweep_config(ctx: &Ctx, w: &W, filters: &[FSpec], cfg: &[IC], faults: bool, distinct: &mut std::collections::HashSet<u64>, samples: &Samples) -> u64 {
     let es0 = match reach(w, cfg) {
         Ok(es) => es,
         Err(e) => {
@@ -735,6 +933,10 @@ fn sweep_config(ctx: &Ctx, w: &W, filters: &[FSpec], cfg: &[IC], distinct: &mut 
     };
     let ref0 = ref_of(cfg);
     let mut n = 0u64;
+    // The `System` handle and the `DefaultStrategy` are thin wrappers that do not look at the engine state: in the
+    // big main sweep they are driven for every filter on one configuration in eight (chosen by a hash of the
+    // configuration: deterministic), in the small worlds on every configuration
+    let wrappers = !faults || hash_of(&cfg) % 8 == 0;
     for f in filters {
         for first in [Cmd::Cancel, Cmd::Close] {
             // healthy links, trading disabled: the command, then every follow-up
@@ -745,8 +947,24 @@ fn sweep_config(ctx: &Ctx, w: &W, filters: &[FSpec], cfg: &[IC], distinct: &mut 
             if !plain_clean {
                 continue;
             }
+            samples.offer(|| case_json(w, cfg, f, &[first, Cmd::Cancel], PLAIN));
             // healthy links, trading enabled
             n += sweep_first(ctx, w, cfg, &es0, &ref0, f, first, Env { trading_enabled: true, ..PLAIN }, &[], distinct).0;
+            // the same command issued through the user-facing `System` handle
+            if wrappers {
+                n += sweep_first(ctx, w, cfg, &es0, &ref0, f, first, Env { via_system: true, ..PLAIN }, &[], distinct).0;
+            }
+            // every stream reconnecting when the command arrives
+            n += sweep_first(ctx, w, cfg, &es0, &ref0, f, first, Env { reconnecting: true, ..PLAIN }, &[], distinct).0;
+            // a risk manager that refuses everything it is shown
+            n += sweep_first(ctx, w, cfg, &es0, &ref0, f, first, Env { risk_refuses: true, ..PLAIN }, &[], distinct).0;
+            // close-positions answered by the library's DefaultStrategy, then cancel everything (its orders are in flight)
+            if first == Cmd::Close && wrappers {
+                n += sweep_first(ctx, w, cfg, &es0, &ref0, f, first, Env { default_strategy: true, ..PLAIN }, &[Cmd::CancelAll], distinct).0;
+            }
+            if !faults {
+                continue;
+            }
             // recoverable link faults: after a cancel command the follow-up cancels on healed links must request
             // exactly what could not be sent (after a close command the statement does not say whether an
             // unsent closing order is "tracked": no follow-up)
@@ -758,7 +976,6 @@ fn sweep_config(ctx: &Ctx, w: &W, filters: &[FSpec], cfg: &[IC], distinct: &mut 
             for links in UNRECOVERABLE {
                 n += sweep_first(ctx, w, cfg, &es0, &ref0, f, first, Env { links, ..PLAIN }, &[], distinct).0;
             }
-            samples.offer(|| case_json(cfg, f, &[first, Cmd::Cancel], PLAIN));
         }
     }
     n
@@ -859,6 +1076,113 @@ fn configs(ctx: &Ctx) -> Vec<Vec<IC>> {
     v
 }
 
+// ------------------------------------------------------------------------------------------------
+// long-input layers: many orders on one instrument, many instruments
+// ------------------------------------------------------------------------------------------------
+
+/// every n <= 130, then n around every power of two and of ten up to `max`, and `max` itself
+fn long_sizes(max: usize) -> Vec<usize> {
+    let mut v: Vec<usize> = (1..=130.min(max)).collect();
+    for base in [2usize, 10] {
+        let mut p = if base == 2 { 256 } else { 1000 };
+        while p <= max + 1 {
+            v.extend([p - 1, p, p + 1]);
+            p *= base;
+        }
+    }
+    v.push(max);
+    v.retain(|k| *k >= 1 && *k <= max);
+    v.sort();
+    v.dedup();
+    v
+}
+
+/// Main world, instrument 0 tracks n orders `m0..` (by j mod 4: in flight / open / partially filled / already
+/// being cancelled), instrument 3 (other exchange) tracks one order that carries the SAME client order id `m0`.
+/// `CancelOrders(Instruments[0])` must request exactly the live ones of the n - whatever n is -, its repetition
+/// nothing, and `CancelOrders(None)` after it exactly the one order of instrument 3.
+/// Returns the number of command evaluations, or None if the state could not be reached.
+fn many_orders(ctx: &Ctx, w: &W, n: usize, distinct: &mut std::collections::HashSet<u64>) -> Option<u64> {
+    let healthy = vec![Some(TxMode::Healthy); w.n_ex];
+    let (mut engine, _txs) = mk_engine(&w.instruments, fresh_state(&w.instruments, TradingState::Disabled), &healthy, ScriptStrategy::default(), ScriptRisk::default());
+    let cid = |j: usize| format!("m{j}");
+    let opens: Vec<OrderRequestOpen> = (0..n)
+        .map(|j| OrderRequestOpen {
+            key: key(w, 0, &cid(j)),
+            state: RequestOpen { side: Side::Buy, price: Decimal::from(100), quantity: Decimal::from(2), kind: OrderKind::Limit, time_in_force: GTC },
+        })
+        .collect();
+    let _ = engine.process(EngineEvent::Command(Command::SendOpenRequests(OneOrMany::Many(opens))));
+    let _ = engine.process(ev_open(w, 3, "m0"));
+    let mut orders = BTreeMap::new();
+    let mut cancels = Vec::new();
+    for j in 0..n {
+        let c = cid(j);
+        match j % 4 {
+            0 => {
+                orders.insert(c, RS::InFlight);
+            }
+            1 | 2 => {
+                let _ = engine.process(ev_snap_open(w, 0, &c, (j % 4 - 1) as u32));
+                orders.insert(c.clone(), RS::Open(format!("x-{c}")));
+            }
+            _ => {
+                let _ = engine.process(ev_snap_open(w, 0, &c, 0));
+                cancels.push(OrderRequestCancel { key: key(w, 0, &c), state: RequestCancel { id: Some(OrderId::new(format!("x-{c}"))) } });
+                orders.insert(c, RS::Cancelling);
+            }
+        }
+    }
+    if !cancels.is_empty() {
+        let _ = engine.process(EngineEvent::Command(Command::SendCancelRequests(OneOrMany::Many(cancels))));
+    }
+    let es = engine.state;
+    // reached? (number of orders, and which of them are being cancelled)
+    let t0 = &es.instruments.0.get_index(0).unwrap().1.orders.0;
+    let cancelling = t0.values().filter(|o| matches!(o.state, ActiveOrderState::CancelInFlight(_))).count();
+    let open = t0.values().filter(|o| matches!(o.state, ActiveOrderState::Open(_))).count();
+    if t0.len() != n || cancelling != n / 4 || open != (n + 2) / 4 + (n + 1) / 4 || es.instruments.0.get_index(3).unwrap().1.orders.0.len() != 1 {
+        return None;
+    }
+    let mut refm: Vec<RefIns> = (0..w.n_ins).map(|_| RefIns { orders: BTreeMap::new(), pos: None, price: false }).collect();
+    refm[0].orders = orders;
+    refm[3].orders.insert("m0".into(), RS::InFlight);
+    let f = FSpec::Ins(vec![0], false);
+    let seq = [Cmd::Cancel, Cmd::Cancel, Cmd::CancelAll];
+    let mut es = es;
+    let mut evals = 0u64;
+    for k in 0..seq.len() {
+        let mut out = Vec::new();
+        let res = eval(w, &es, &mut refm, &f, seq[k], PLAIN, &mut out);
+        evals += 1;
+        let clean = out.is_empty();
+        for (sig, detail) in out {
+            ctx.violate(sig, detail, json!({"engine": "many-orders", "n": n, "seq": &seq[..=k]}));
+        }
+        match res {
+            Some((post, h)) if clean => {
+                distinct.insert(h ^ (k as u64).rotate_left(40));
+                es = post;
+            }
+            _ => break,
+        }
+    }
+    Some(evals)
+}
+
+/// World of k instruments on two exchanges, the per-instrument states cycling through the menu: both commands
+/// under filters that select all / one exchange / every other instrument / the one underlying of exchange 0,
+/// each followed by the three follow-ups. Returns the number of command evaluations.
+fn many_instruments(ctx: &Ctx, k: usize, distinct: &mut std::collections::HashSet<u64>, samples: &Samples) -> u64 {
+    let w = W::wide(k);
+    let m = menu(false);
+    let cfg: Vec<IC> = (0..k).map(|j| m[(j * 5 + 1) % m.len()]).collect();
+    let mut filters = vec![FSpec::None, FSpec::Ex(vec![0], false), FSpec::Ex(vec![1], false), FSpec::Ins((0..k).filter(|j| j % 2 == 1).collect(), true), FSpec::Und(vec![w.und_of[0]], false)];
+    filters.retain(|f| !matches!(f, FSpec::Ins(v, _) if v.is_empty()));
+    // faults = false: plain environment, trading enabled, via the System handle
+    sweep_config(ctx, &w, &filters, &cfg, false, distinct, samples)
+}
+
 pub fn run(ctx: &Ctx) -> Outcome {
     let w = W::new();
     let filters = w.filters();
@@ -868,8 +1192,58 @@ pub fn run(ctx: &Ctx) -> Outcome {
     let samples = Samples::new(4);
     cfgs.par_iter().for_each(|cfg| {
         let mut local = std::collections::HashSet::new();
-        let n = sweep_config(ctx, &w, &filters, cfg, &mut local, &samples);
+        let n = sweep_config(ctx, &w, &filters, cfg, true, &mut local, &samples);
         evaluations.fetch_add(n, Ordering::Relaxed);
+        distinct.merge_local(&local);
+    });
+    // second world: three exchanges (full product of a 4-entry (quick) / the 6-entry (thorough) per-instrument menu)
+    let w3 = W::three();
+    let filters3 = w3.filters();
+    let m3: Vec<IC> = if ctx.tier == crate::core::Tier::Thorough { menu(false) } else { vec![ic(0, 0, false), ic(0b00011, 1, true), ic(0b10000, 1, false), ic(0b11111, 2, true)] };
+    let mut cfgs3: Vec<Vec<IC>> = Vec::new();
+    for a in &m3 {
+        for b in &m3 {
+            for c in &m3 {
+                for d in &m3 {
+                    cfgs3.push(vec![*a, *b, *c, *d]);
+                }
+            }
+        }
+    }
+    let evaluations3 = AtomicU64::new(0);
+    let samples3 = Samples::new(2);
+    cfgs3.par_iter().for_each(|cfg| {
+        let mut local = std::collections::HashSet::new();
+        let n = sweep_config(ctx, &w3, &filters3, cfg, false, &mut local, &samples3);
+        evaluations3.fetch_add(n, Ordering::Relaxed);
+        distinct.merge_local(&local);
+    });
+    // long inputs
+    let max_orders = ctx.tier.pick(1100usize, 4200);
+    let sizes = long_sizes(max_orders);
+    let long_evals = AtomicU64::new(0);
+    sizes.par_iter().for_each(|n| {
+        let mut local = std::collections::HashSet::new();
+        match many_orders(ctx, &w, *n, &mut local) {
+            Some(k) => {
+                long_evals.fetch_add(k, Ordering::Relaxed);
+            }
+            None => {
+                let mut g = UNREACHED.lock().unwrap();
+                g.0 += 1;
+                if g.1.is_none() {
+                    g.1 = Some(format!("many-orders n={n}"));
+                }
+            }
+        }
+        distinct.merge_local(&local);
+    });
+    let max_instruments = ctx.tier.pick(64usize, 200);
+    let wide_evals = AtomicU64::new(0);
+    let samples_wide = Samples::new(0);
+    (1..=max_instruments).into_par_iter().for_each(|k| {
+        let mut local = std::collections::HashSet::new();
+        wide_evals.fetch_add(many_instruments(ctx, k, &mut local, &samples_wide), Ordering::Relaxed);
         distinct.merge_local(&local);
     });
     let (unreached, first_unreached) = UNREACHED.lock().unwrap().clone();
@@ -889,8 +1263,14 @@ pub fn run(ctx: &Ctx) -> Outcome {
             "configurations": cfgs.len(),
             "configurations_not_reached_by_the_setup_events": unreached,
             "filters": filters.len(),
-            "command_sequences_per_configuration_and_filter": 30,
-            "command_sequences_breakdown": "healthy links/trading disabled: 2 first x (1 + 3 follow-ups) = 8; trading enabled: 2; 3 recoverable link-fault patterns x (cancel + 2 follow-ups on healed links, close) = 12; 4 unrecoverable link-fault patterns x 2 = 8",
+            "command_sequences_per_configuration_and_filter": "34, and 38 on one configuration in eight",
+            "command_sequences_breakdown": "healthy links/trading disabled: 2 first x (1 + 3 follow-ups) = 8; trading enabled: 2; all market / account streams reconnecting: 2; risk manager refusing everything: 2; on one configuration in eight: issued through the System handle: 2, close-positions answered by the library's DefaultStrategy + cancel-all: 2; 3 recoverable link-fault patterns x (cancel + 2 follow-ups on healed links, close) = 12; 4 unrecoverable link-fault patterns x 2 = 8",
+            "world_three_exchanges": {"configurations": cfgs3.len(), "filters": filters3.len(), "evaluations": evaluations3.load(Ordering::Relaxed), "command_sequences_per_configuration_and_filter": 18,
+                "layout": "exchange 0: instruments 0,1; exchange 1: instrument 2; exchange 2: instrument 3; four underlyings", "samples": samples3.take()},
+            "long_inputs": {"many_orders_on_one_instrument": {"sizes": sizes.len(), "largest": max_orders, "evaluations": long_evals.load(Ordering::Relaxed),
+                    "rule": "instrument 0 tracks n orders (in flight / open / partially filled / already cancelling by j mod 4), instrument 3 one order with the same client order id as one of them: CancelOrders(Instruments[0]), again, CancelOrders(None); every n <= 130 and around powers of two / ten"},
+                "many_instruments": {"worlds": max_instruments, "largest": max_instruments, "evaluations": wide_evals.load(Ordering::Relaxed),
+                    "rule": "k = 1..=largest instruments on two exchanges, states cycling through the menu; both commands under 5 filters with all follow-ups, trading enabled, via the System handle"}},
             "distinct_nontrivial": dn,
             "exhaustive": true,
             "rule": "for every reached engine state x filter: CancelOrders / ClosePositions, then CancelOrders / ClosePositions / CancelOrders(None) again; deliveries in the link logs == requests the reference model derives from the configuration and the definition-level filter predicate; instruments outside the filter bit-identical; the first command also with trading enabled and under 7 link-fault patterns (recoverable: deliveries on the healthy links exact, follow-up cancels on healed links request exactly what was not sent; unrecoverable: nothing wrong requested)",
@@ -900,23 +1280,44 @@ pub fn run(ctx: &Ctx) -> Outcome {
         }),
         assumptions: vec![
             "engine states are those reachable by SendOpenRequests / order snapshots / SendCancelRequests / trades / market trades on healthy links with trading disabled".into(),
+            "client order ids are unique per instrument, not globally: instruments 0 and 2 (and 1 and 3) track orders with the same id strings; an order is addressed by instrument + client order id".into(),
+            "user commands are not conditional on the configured risk manager (the engine bypasses it for commands): every first command also with a risk manager that refuses every request shown to it".into(),
+            "connectivity is engine state the statement does not condition on: every first command also with all market and account streams reporting Reconnecting".into(),
+            "a command issued through System::cancel_orders / close_positions is judged by what the engine does with everything the handle put on the engine feed".into(),
             "4 instruments on 2 exchanges; full product of a per-instrument menu plus all 256 per-instrument states (32 order sets x {none, long 2, short 3, long 0.500000000001} x price known/unknown) on each instrument against a background".into(),
             "a request that could not be sent (failing execution link) is not in flight: the order is still 'not already being cancelled'; with a recoverable fault on one link the requests for the other link are still demanded exactly; with an unrecoverable fault (engine about to shut down) only wrong requests are flagged".into(),
             "a filter that names an element twice has the same scope as the filter naming it once".into(),
-            "the close-positions strategy is close_open_positions_with_market_orders with a deterministic client order id per instrument".into(),
+            "the close-positions strategy is close_open_positions_with_market_orders with a deterministic client order id per instrument; in the 'default-strategy' evaluations it is the library's DefaultStrategy (random client order ids, which are not compared)".into(),
+            "tracked orders differ in side and time in force by kind (open: sell / post-only, partially filled: good until end of day, ...); the scope of a cancel command does not depend on an order's terms".into(),
             "only side, quantity, instrument and exchange of a closing order are demanded (the statement does not fix kind / price / time in force)".into(),
         ],
     }
 }
 
 pub fn replay(ctx: &Ctx, case: &Value) {
-    let w = W::new();
+    if case["engine"].as_str() == Some("many-orders") {
+        let n = case["n"].as_u64().expect("replay: n") as usize;
+        let mut local = std::collections::HashSet::new();
+        if many_orders(ctx, &W::new(), n, &mut local).is_none() {
+            eprintln!("MACHINERY: cannot reach the many-orders state n={n}");
+            std::process::exit(2);
+        }
+        return;
+    }
+    let w = W::by_name(case["world"].as_str().unwrap_or("main"));
     let cfg: Vec<IC> = serde_json::from_value(case["cfg"].clone()).expect("replay: cfg");
     let f: FSpec = serde_json::from_value(case["filter"].clone()).expect("replay: filter");
     let seq: Vec<Cmd> = serde_json::from_value(case["seq"].clone()).expect("replay: seq");
     // cases recorded before the environment dimensions existed carry neither key: plain environment
-    let links: [Link; 2] = serde_json::from_value(case["links"].clone()).unwrap_or(HEALTHY);
+    let mut links = HEALTHY;
+    for (k, l) in serde_json::from_value::<Vec<Link>>(case["links"].clone()).unwrap_or_default().into_iter().take(3).enumerate() {
+        links[k] = l;
+    }
     let trading_enabled = case["trading_enabled"].as_bool().unwrap_or(false);
+    let via_system = case["via_system"].as_bool().unwrap_or(false);
+    let default_strategy = case["default_strategy"].as_bool().unwrap_or(false);
+    let reconnecting = case["reconnecting"].as_bool().unwrap_or(false);
+    let risk_refuses = case["risk_refuses"].as_bool().unwrap_or(false);
     let mut es = match reach(&w, &cfg) {
         Ok(es) => es,
         Err(e) => {
@@ -927,9 +1328,9 @@ pub fn replay(ctx: &Ctx, case: &Value) {
     let mut refm = ref_of(&cfg);
     for (k, cmd) in seq.iter().enumerate() {
         let env = if k == 0 {
-            Env { links, trading_enabled, after_failed_send: false }
+            Env { links, trading_enabled, after_failed_send: false, via_system, default_strategy, reconnecting, risk_refuses }
         } else {
-            Env { links: HEALTHY, trading_enabled: false, after_failed_send: links != HEALTHY }
+            Env { links: HEALTHY, trading_enabled: false, after_failed_send: links != HEALTHY, via_system: false, default_strategy: false, reconnecting: false, risk_refuses: false }
         };
         let mut out = Vec::new();
         let res = eval(&w, &es, &mut refm, &f, *cmd, env, &mut out);
